@@ -403,7 +403,7 @@ def coq_metric(req):
 
 # ---------------------------------------------------------------- driver
 def generate(rng, tier):
-    n = 420 if tier == "quick" else 6000
+    n = 700 if tier == "quick" else 6000
     base_ops = K1.generate(rng, "quick" if n < 1000 else "thorough")
     cases = []
     i = 0
